@@ -51,6 +51,15 @@ type c09Spec struct {
 	BufLock string            `json:"buf_lock"`
 	// B4: the module key pins the legacy digest, which covers the v1 buf.yaml / buf.lock side files
 	B4 bool `json:"b4,omitempty"`
+	// YAMLName: the name the v1 configuration object carries ("" = buf.yaml; buf.mod is the legacy spelling)
+	YAMLName string `json:"buf_yaml_name,omitempty"`
+}
+
+func (s c09Spec) yamlName() string {
+	if s.YAMLName == "" {
+		return "buf.yaml"
+	}
+	return s.YAMLName
 }
 
 func (s c09Spec) filesBytes() map[string][]byte {
@@ -84,7 +93,7 @@ func c09Key(s c09Spec) bufmodule.ModuleKey {
 		if s.BufLock != "" {
 			l = []byte(s.BufLock)
 		}
-		digestString = model.B4(s.filesBytes(), y, l)
+		digestString = model.B4Named(s.filesBytes(), s.yamlName(), y, l)
 	}
 	key, err := bufmodule.NewModuleKey(fn, id, func() (bufmodule.Digest, error) { return bufmodule.ParseDigest(digestString) })
 	if err != nil {
@@ -107,7 +116,7 @@ func c09Data(ctx context.Context, s c09Spec) bufmodule.ModuleData {
 			if s.BufYAML == "" {
 				return nil, nil
 			}
-			return bufmodule.NewObjectData("buf.yaml", []byte(s.BufYAML))
+			return bufmodule.NewObjectData(s.yamlName(), []byte(s.BufYAML))
 		},
 		func() (bufmodule.ObjectData, error) {
 			if s.BufLock == "" {
@@ -144,6 +153,10 @@ func c09Spec_(seed uint64, mi int) c09Spec {
 		s.BufYAML = "version: v1\nname: " + s.Name + "\n"
 		s.BufLock = "version: v1\ndeps: []\n"
 		s.B4 = mi%4 == 1
+		if (mi/2)%3 == 2 {
+			// the legacy spelling of the configuration file's name; the name is covered by the b4 digest
+			s.YAMLName = "buf.mod"
+		}
 	}
 	if mi%3 != 0 {
 		dep := c09Spec{Name: fmt.Sprintf("buf.test/acme/dep%d", mi), Commit: uuid.NewSHA1(uuid.NameSpaceOID, []byte(fmt.Sprintf("c09dep-%d", mi))).String(),
@@ -318,6 +331,11 @@ func c09VerifyData(c *core.C, md bufmodule.ModuleData, s c09Spec, key string) c0
 		got := ""
 		if od != nil {
 			got = string(od.Data())
+			if wantName := map[string]string{"buf.yaml": s.yamlName(), "buf.lock": "buf.lock"}[side.name]; od.Name() != wantName && !c09SideFilesTampered {
+				c.Violation("served-wrong-content", key+" side="+side.name+" name", fmt.Sprintf("the v1 %s object was stored under the name %q and is served under the name %q", side.name, wantName, od.Name()), nil)
+				return c09Outcome{"found-wrong", ""}
+			}
+			c.Distinct("side_file_names", od.Name())
 		}
 		if got != side.want && c09SideFilesTampered {
 			c.Count("tampered_side_file_of_b5_entry_served", 1)
